@@ -46,6 +46,15 @@ register('C17', 'p_hash', 'c17',
          ORACLE + ['hashlib objects are streaming (update(a);update(b) = update(a+b)); validated per run for every available algorithm',
                    'hashlib one-shot and coreutils are the reference for "the standard digest"'])
 
+register('C15', 'p_top', 'c15',
+         'directory chains of depth 4 on a real filesystem: per level {absent, plain, gz, both} Manifest, IGNORE of the start path / an ancestor / a sibling / '
+         'string-prefix look-alikes / trailing slash / deeper path / preceded by a DATA entry, every start depth, allow_xdev and allow_compressed on/off, '
+         'a tmpfs mounted at any level (private mount namespace) as device boundary, Manifest as directory / garbage gzip / syntax error; '
+         'non-trivial = distinct case',
+         'Theorem C15_outermost ties the model to the declarative Spec/FindTop.v is_answer, which determines the result uniquely; '
+         'a disagreement between implementation and model on a readable chain is therefore a violation of the specification.',
+         ORACLE + ['kernel: st_dev identifies a filesystem; os.path.relpath is lexical (start paths are canonical)'])
+
 # ---- MANIFEST metadata per claimed property ------------------------------------------------
 NOT_APPLICABLE = {}
 META = {
@@ -80,6 +89,13 @@ META = {
               'instance); unsupported names raise UnsupportedHash; the Manifest-name table equals the GLEP 74 mapping; unknown Manifest names are reported. '
               '"Equals the standard digest" is carried by the hashlib/coreutils comparison.',
    level_note='About Model/Hash.v over generated HASH_BUFFER_SIZE/MAX_SLURP_SIZE/manifest_hash_mapping; hashlib is an oracle with the streaming law as an explicit premise.'),
+ 'C15': dict(engine='coq+top', design_ref='DESIGN.md section 5 C15',
+   technique='Coq proof by induction over the ancestor chain against a declarative spec + differential runs on real directory chains with tmpfs device boundaries',
+   level_text='Proved in Coq for ancestor chains of any length: the result of discovery is the Manifest of the outermost level reachable without passing a '
+              'Manifest that IGNOREs the start path by whole components or lies on another device (C15_outermost, against Spec/FindTop.v); compressed names are '
+              'only tried when allowed; path_starts_with is component-wise (theorem about the translated util.py).',
+   level_note='About Model/FindTop.v over the translated util.path_starts_with and generated name tables; start paths are assumed canonical (relpath is lexical); '
+              'error levels (unreadable Manifests) are covered by correspondence only.'),
  'C09': dict(engine='coq+text', design_ref='DESIGN.md section 5 C09',
    technique='Coq theorems (totality of the parser result type by induction over lines; per-class rejection lemmas) + differential runs',
    level_text='Proved in Coq for every text: load returns entries, ManifestSyntaxError or ManifestUnsignedData and nothing else; accepted entries '
